@@ -66,6 +66,8 @@ def run(ctx, tier, res, tag=''):
                 res.violation(key + tag, text)
             else:
                 res.undec(text)
+    from .. import promises
+    promises.report(ctx, res, [fn for (_, fn) in init_tasks(ctx)], promises.MEMORY_KINDS, tag)
     res.rule = ('one obligation per initialiser (current and legacy): with header and trailing memory fully symbolic, the '
                 'final header image must be the constant image mandated by spec/formats.json (hence independent of prior '
                 'content and idempotent) and no octet after the header may be written')
